@@ -62,7 +62,9 @@ STATEMENT_STATUS = {
 
 
 def _cr_lf(f) -> bool:
-    return bool(f.tags.get("data_ends_cr")) and f.tags.get("sep") == "0a" and f.tags.get("area") == "inline"
+    # only FILTERED payloads are left: the size of unfiltered data is known from the dictionary
+    return (bool(f.tags.get("data_ends_cr")) and f.tags.get("sep") == "0a" and f.tags.get("area") == "inline" and
+            bool(f.tags.get("filtered")))
 
 
 CLASSIFIERS = {
@@ -561,7 +563,7 @@ def inline_tags_of(imgs):
         if img["place"] == "inline":
             payload_last = IL.encode_chain(bytes.fromhex(img["data"]), img.get("filters", []), None)[-1:]
             return {"data_ends_cr": payload_last == b"\r", "sep": img.get("sep", "0a"), "after": img.get("after", "0a"),
-                    "abbr": img.get("abbr", True)}
+                    "abbr": img.get("abbr", True), "filtered": bool(img.get("filters"))}
     return {}
 
 
@@ -705,7 +707,7 @@ def impl_tokens(content: bytes, bufsiz: int) -> Tuple[List[str], Optional[str]]:
     return toks, "nonterminating"
 
 
-def impl_inline(content: bytes, start: int, target: bytes, bufsiz: int) -> str:
+def impl_inline(content: bytes, start: int, target: bytes, bufsiz: int, length: Optional[int] = None) -> str:
     """PDFContentParser.get_inline_data called at `start` -> canonical reply of the model op `inline`."""
     from pdfminer.pdfinterp import PDFContentParser
     from pdfminer.pdftypes import PDFStream
@@ -713,7 +715,10 @@ def impl_inline(content: bytes, start: int, target: bytes, bufsiz: int) -> str:
     p = PDFContentParser([PDFStream({}, content)])
     p.BUFSIZ = bufsiz
     try:
-        (_, data) = p.get_inline_data(start, target=target)
+        if length is None:
+            (_, data) = p.get_inline_data(start, target=target)
+        else:
+            (_, data) = p.get_inline_data(start, target=target, length=length)
     except PSEOF:
         return "EOF"
     except Exception as e:  # noqa: BLE001
@@ -754,14 +759,57 @@ def gen_inline_case(rng, in_domain: bool) -> Dict[str, Any]:
     if after == b"":
         suffix = b""              # EI is the last token of the stream
     prefix = rng.choice([b"", b"q ", b"q 1 0 0 1 2 3 cm\n", b"BT (a) Tj ET\n"])
-    return {"prefix": prefix.hex(), "data": data.hex(), "sep": sep.hex(), "after": after.hex(), "suffix": suffix.hex(),
+    case = {"prefix": prefix.hex(), "data": data.hex(), "sep": sep.hex(), "after": after.hex(), "suffix": suffix.hex(),
             "id_ws": rng.choice(["20", "0a", "20", "0d"]), "abbr": rng.random() < 0.8,
             "bufsiz": rng.choice([1, 2, 3, 4, 5, 7, 8, 16, 33, 64, 4096, 4096])}
+    case.update(inline_dims(rng, len(data), in_domain))
+    return case
+
+
+def inline_dims(rng, n: int, in_domain: bool) -> Dict[str, Any]:
+    """Width/height/kind of the image dictionary: consistent with n data bytes (a well-formed image), or a
+    filter entry (then the bytes are an opaque payload and the dictionary says nothing about their number)."""
+    r = rng.random()
+    if r < 0.15:
+        return {"kind": "gray8", "w": rng.randint(1, 9), "h": rng.randint(1, 9), "flt": rng.choice(["Fl", "LZW", "DCT", "RL"])}
+    if n == 0 or (not in_domain and r < 0.5):
+        return {"kind": "gray8", "w": 2, "h": 2, "flt": None}          # size and data disagree: tie only
+    opts = [("gray8", n, 1)]
+    for hh in (2, 3, 5):
+        if n % hh == 0:
+            opts.append(("gray8", n // hh, hh))
+    if n % 3 == 0:
+        opts.append(("rgb8", n // 3, 1))
+    opts.append(("bit1", 8 * n - rng.randint(0, 7), 1))
+    k, w, h = rng.choice(opts)
+    return {"kind": k, "w": w, "h": h, "flt": None}
+
+
+def inline_dict_of(case) -> Dict[str, Any]:
+    img = {"kind": case.get("kind", "gray8"), "w": case.get("w", 2), "h": case.get("h", 2),
+           "filters": []}
+    d = IL.image_dict(img, True, case.get("abbr", True))
+    if case.get("flt"):
+        d["F" if case.get("abbr", True) else "Filter"] = case["flt"] if case.get("abbr", True) else \
+            {"Fl": "FlateDecode", "LZW": "LZWDecode", "DCT": "DCTDecode", "RL": "RunLengthDecode"}[case["flt"]]
+    return d
+
+
+def inline_wellformed(case) -> bool:
+    if case.get("flt"):
+        return True
+    n = len(bytes.fromhex(case["data"]))
+    return n == case.get("h", 2) * IL.row_bytes(case.get("kind", "gray8"), case.get("w", 2))
+
+
+def inline_size_hint(case) -> Optional[int]:
+    if case.get("flt"):
+        return None
+    return case.get("h", 2) * IL.row_bytes(case.get("kind", "gray8"), case.get("w", 2))
 
 
 def inline_content(case) -> Tuple[bytes, int, bytes]:
-    img = {"kind": "gray8", "w": 2, "h": 2, "filters": []}
-    d = IL.image_dict(img, True, case.get("abbr", True))
+    d = inline_dict_of(case)
     head = bytes.fromhex(case["prefix"]) + b"BI " + b" ".join(W.ser(k) + b" " + W.ser(v) for k, v in d.items()) + b" ID"
     start = len(head) + 1
     content = (head + bytes.fromhex(case["id_ws"]) + bytes.fromhex(case["data"]) + bytes.fromhex(case["sep"]) + b"EI" +
@@ -777,12 +825,12 @@ def inline_verdict(case) -> Optional[Tuple[str, Any, Any, Dict[str, Any]]]:
     toks, exc = impl_tokens(content, bufsiz)
     pre, _ = impl_tokens(bytes.fromhex(case["prefix"]), bufsiz)
     suf, _ = impl_tokens(bytes.fromhex(case["suffix"]), bufsiz)
-    img = {"kind": "gray8", "w": 2, "h": 2, "filters": []}
-    d = IL.image_dict(img, True, case.get("abbr", True))
+    d = inline_dict_of(case)
     imgtok = "img{" + ",".join(k + "=" + ("n:" + v if isinstance(v, str) else "i:%d" % v) for k, v in sorted(d.items())) + \
              "}:" + C.hx(data)
     exp = pre + [imgtok, "k:EI"] + suf
     tags = {"area": "inline", "data_ends_cr": data.endswith(b"\r"), "sep": case["sep"], "after": case["after"],
+            "filtered": bool(case.get("flt")),
             "data_ends_E": data.endswith(b"E"), "eof_after_EI": case["after"] == "" and case["suffix"] == "",
             "bufsiz": bufsiz}
     if exc is not None:
@@ -814,12 +862,16 @@ def shrink_inline(case, what):
         def still(sub):
             t = dict(cur)
             t["data"] = bytes(sub).hex()
+            if not cur.get("flt"):
+                t.update(kind="gray8", w=len(sub), h=1)
             if IL.has_marker(bytes(sub) + bytes.fromhex(cur["sep"])):
                 return False
             return fails(t)
         small = C.ddmin(data, still, 200)
         t = dict(cur)
         t["data"] = bytes(small).hex()
+        if not cur.get("flt"):
+            t.update(kind="gray8", w=len(small), h=1)
         if fails(t):
             cur = t
     for b in (4096, 1):
@@ -846,7 +898,13 @@ def check_inline_case(ctx: C.Ctx, case, in_domain: bool, lines, impl, inputs) ->
     lines.append("inline 4549 %s" % C.hx(content[start:]))
     impl.append(impl_inline(content, start, b"EI", case["bufsiz"]))
     inputs.append(("inline", case))
-    if in_domain:
+    hint = inline_size_hint(case)
+    lines.append("inlinelen 4549 %s %s" % ("-" if hint is None else hint, C.hx(content[start:])))
+    impl.append(impl_inline(content, start, b"EI", case["bufsiz"], hint))
+    inputs.append(("inlinelen", case))
+    ctx.branch("inline:" + ("filtered" if case.get("flt") else "unfiltered:" + case.get("kind", "gray8") +
+                            ("" if inline_wellformed(case) else ":size-mismatch")))
+    if in_domain and inline_wellformed(case):
         v = inline_verdict(case)
         if v is not None:
             small = shrink_inline(case, v[0])
